@@ -6,6 +6,7 @@ import (
 	"fmt"
 	"io/fs"
 	"math/rand"
+	"runtime"
 	"sort"
 	"strings"
 	"sync"
@@ -78,7 +79,7 @@ var c12perms = []uint32{0o644, 0o600, 0o755, 0o700, 0o444, 0o777, 0o640, 0o500}
 
 // c12archive generates the entries of one archive.
 func c12archive(r *rand.Rand, shape string) []tarx.Entry {
-	names := []string{"a", "b", "c", "ab", ".h", "x y", `b\s`}
+	names := []string{"a", "b", "c", "ab", ".h", "x y", `b\s`, "..a", "...", "..data", "a..", "logs", "logs2"}
 	type node struct {
 		path string
 		dir  bool
@@ -284,8 +285,21 @@ func c12run(env *core.Env, idx int) core.CaseResult {
 		}
 		select {
 		case <-t.Done():
-		case <-time.After(120 * time.Second):
-			res.Inconclusive = "unpacking did not finish within the watchdog"
+		case <-time.After(90 * time.Second):
+			// the archive is an in-memory reader that never stalls: if library goroutines are parked, unpacking is stuck
+			buf := make([]byte, 1<<20)
+			dump := string(buf[:runtime.Stack(buf, true)])
+			parked := 0
+			for _, g := range strings.Split(dump, "\n\n") {
+				if strings.Contains(g, "hackpadfs/tar.") && (strings.Contains(g, "[chan send") || strings.Contains(g, "[chan receive") || strings.Contains(g, "[semacquire") || strings.Contains(g, "[sync.WaitGroup.Wait") || strings.Contains(g, "[select") || strings.Contains(g, "[sync.Mutex.Lock")) {
+					parked++
+				}
+			}
+			if parked > 0 {
+				res.Violate(sig("never-finishes"), fmt.Sprintf("Done() did not close although the whole archive was delivered; the goroutine dump shows %d goroutines of the tar package parked (channel / lock / WaitGroup)", parked), wit)
+			} else {
+				res.Inconclusive = "unpacking did not finish within the watchdog, no blocked-state witness"
+			}
 			return res
 		}
 		res.Count("unpackings", 1)
